@@ -1,5 +1,6 @@
 #pragma once
 
+#include <nano/critical.h>
 #include <nano/generator.h>
 
 namespace nano
@@ -66,6 +67,9 @@ feature_mapping_t select(const tdataset& dataset, const indices_t& feature_indic
     tensor_size_t count = 0;
     if (feature_indices.size() > 0)
     {
+        critical(feature_indices.min() < 0 || feature_indices.max() >= dataset.features(),
+                 "generator: invalid feature indices, expecting indices in [0, ", dataset.features(), ")!");
+
         for (const auto ifeature : feature_indices)
         {
             callback(dataset, ifeature, [&](const auto&, auto) { ++count; });
